@@ -321,13 +321,14 @@ async fn inproc_refusal_case(rep: &mut Report, binder_t: SocketType, bad_t: Sock
 
 /// Reconnect spacing as seen by a raw listener that accepts and immediately drops, then traffic
 /// resumption once a real peer listens on the same port.
-async fn reconnect_case(rep: &mut Report, ivl: u64, max: u64) {
+async fn reconnect_case(rep: &mut Report, ivl: u64, max: u64, tr: Transport) {
   let ctx = util::new_ctx();
   let push = ctx.socket(SocketType::Push).unwrap();
   util::set_i32(&push, opt::RECONNECT_IVL, ivl as i32).await;
   util::set_i32(&push, opt::RECONNECT_IVL_MAX, max as i32).await;
   util::set_i32(&push, opt::SNDTIMEO, 8000).await;
-  let (lst, ep) = RawListener::bind_tcp().await.unwrap();
+  let ipc_path = format!("{}/reconnect-{}-{}", util::ipc_dir(), ivl, max);
+  let (lst, ep) = if tr == Transport::Ipc { RawListener::bind_unix(&ipc_path).await.unwrap() } else { RawListener::bind_tcp().await.unwrap() };
   let port = util::tcp_port_of(&ep);
   let _ = push.connect(&ep).await;
   // phase 1: accept-and-drop; timestamps of the arrivals
@@ -344,14 +345,14 @@ async fn reconnect_case(rep: &mut Report, ivl: u64, max: u64) {
       _ => break,
     }
   }
-  rep.case(&("reconnect", ivl, max), true);
+  rep.case(&("reconnect", ivl, max, tr), true);
   let gaps: Vec<Duration> = stamps.windows(2).map(|w| w[1] - w[0]).collect();
-  let cfg = format!("RECONNECT_IVL={}ms RECONNECT_IVL_MAX={}ms", ivl, max);
+  let cfg = format!("{} RECONNECT_IVL={}ms RECONNECT_IVL_MAX={}ms", tr.name(), ivl, max);
   let gaps_ms: Vec<u64> = gaps.iter().map(|g| g.as_millis() as u64).collect();
   rep.note(format!("{} -> attempt gaps {:?} ms", cfg, gaps_ms));
   let slack = Duration::from_millis(350); // the passive reconnect runs on a 100 ms maintenance tick
   if gaps.is_empty() {
-    rep.violation("no_reconnect_attempt_seen".to_string(), format!("{}: the connection was dropped by the peer but no new connect attempt arrived within {:?}", cfg, observe), json!({"config": cfg}));
+    rep.violation(format!("no_reconnect_attempt_seen|{}", tr.name()), format!("{}: the connection was dropped by the peer but no new connect attempt arrived within {:?}", cfg, observe), json!({"config": cfg}));
   }
   for (k, g) in gaps.iter().enumerate() {
     let wit = json!({"config": cfg, "gaps_ms": gaps_ms, "index": k});
@@ -372,8 +373,9 @@ async fn reconnect_case(rep: &mut Report, ivl: u64, max: u64) {
   let pull = rctx.socket(SocketType::Pull).unwrap();
   util::set_i32(&pull, opt::RCVTIMEO, 8000).await;
   let mut bound = false;
+  let rebind_ep = if tr == Transport::Ipc { format!("ipc://{}", ipc_path) } else { format!("tcp://127.0.0.1:{}", port) };
   for _ in 0..20 {
-    if pull.bind(&format!("tcp://127.0.0.1:{}", port)).await.is_ok() {
+    if pull.bind(&rebind_ep).await.is_ok() {
       bound = true;
       break;
     }
@@ -387,7 +389,7 @@ async fn reconnect_case(rep: &mut Report, ivl: u64, max: u64) {
     let r = pull.recv().await;
     let bound_ms = (if max > 0 { max } else { ivl * 64 }).max(ivl) * 2 + 3000;
     if !matches!(&r, Ok(m) if m.data() == Some(b"resumed")) || t1.elapsed() > Duration::from_millis(bound_ms) {
-      rep.violation("traffic_did_not_resume_after_listener_came_back".to_string(), format!("{}: once a PULL listened on the port again: send {:?}, recv {:?} after {:?}", cfg, s.map_err(|e| e.to_string()), r.map(|m| m.size()).map_err(|e| e.to_string()), t1.elapsed()), json!({"config": cfg}));
+      rep.violation(format!("traffic_did_not_resume_after_listener_came_back|{}", tr.name()), format!("{}: once a PULL listened on the port again: send {:?}, recv {:?} after {:?}", cfg, s.map_err(|e| e.to_string()), r.map(|m| m.size()).map_err(|e| e.to_string()), t1.elapsed()), json!({"config": cfg}));
     }
   }
   let _ = tokio::time::timeout(Duration::from_secs(12), ctx.term()).await;
@@ -756,11 +758,12 @@ fn main() {
       }
     }
     Some("reconnect") => {
-      for (i, (ivl, max)) in [(100u64, 0u64), (50, 400), (200, 200), (100, 1000)].iter().enumerate() {
+      for (i, (ivl, max, tr)) in [(100u64, 0u64, Transport::Tcp), (50, 400, Transport::Tcp), (200, 200, Transport::Tcp), (100, 1000, Transport::Tcp), (100, 0, Transport::Ipc), (50, 400, Transport::Ipc)].iter().enumerate() {
         if args.mine(i) {
-          util::guarded(&rt, reconnect_case(&mut rep, *ivl, *max));
+          util::guarded(&rt, reconnect_case(&mut rep, *ivl, *max, *tr));
         }
       }
+      util::cleanup_ipc_dir();
     }
     _ => {
       let mut idx = 0;
